@@ -1061,7 +1061,15 @@ class Process(StateMachine, persistence.Savable, metaclass=ProcessStateMachineMe
                     ) from exc
                 else:
                     while asyncio.isfuture(result):
-                        result = await result
+                        try:
+                            result = await result
+                        except asyncio.CancelledError:
+                            if result.cancelled():
+                                # The awaited future was cancelled (e.g. a pending pause withdrawn by play): report
+                                # that to the caller, who would otherwise wait for a reply forever
+                                kiwi_future.cancel()
+                                return
+                            raise
 
                     kiwi_future.set_result(result)
 
